@@ -557,7 +557,7 @@ impl Disk {
                 let kind = if kind % 7 == 6 && self.pass_dir != self.db_dir { 0 } else { kind % 7 };
                 match kind {
                     6 => {
-                        for place in ["ledger", "aaa", "zzz", ".snapshots"] {
+                        for place in ["ledger", "aaa", "zzz", ".snapshots", "immutable", "immutable/x"] {
                             let d = db_dir.join(place).join("immutable");
                             if std::fs::create_dir_all(&d).is_err() {
                                 continue; // another extra put a FILE of that name there
